@@ -483,3 +483,117 @@ def input_types(t):
     for a in t[2]:
         out += input_types(a)
     return out
+
+
+# ---------------------------------------------------------------------------------------
+# programs for the well-formedness check (C21): coherent impl sets, sound or with a
+# deliberately missing bound
+# ---------------------------------------------------------------------------------------
+
+def _ground_closure(p, atoms):
+    """all ground trait refs required (transitively, through trait where-clauses) by `atoms`"""
+    out, todo = [], list(atoms)
+    while todo:
+        a = todo.pop()
+        if a in out:
+            continue
+        out.append(a)
+        t = p.trait(a[0])
+        m = {k: a[1][k] for k in range(len(a[1]))}
+        for w in t.wcs:
+            todo.append((w[1], tuple(pg.subst_ty(x, m) for x in w[2])))
+    return out
+
+
+def gen_wf_program(rng):
+    """(program, info): a coherent program whose bounds are all met, or — info['missing'] — the
+    same with exactly ONE bound deliberately dropped; optionally the circular pattern."""
+    kind = rng.choice(["chain", "diamond", "params", "cycle", "chain", "diamond"])
+    if kind == "chain":
+        n = rng.randint(2, 4)
+        traits = [ETrait(_tr(0))] + [ETrait(_tr(i), 0, [_sup(i - 1)]) for i in range(1, n)]
+    elif kind == "diamond":
+        traits = [ETrait(_tr(0)), ETrait(_tr(1), 0, [_sup(0)]), ETrait(_tr(2), 0, [_sup(0)]), ETrait(_tr(3), 0, [_sup(1), _sup(2)])]
+    elif kind == "cycle":
+        traits = [ETrait(_tr(0), 0, [_sup(1)]), ETrait(_tr(1), 0, [_sup(0)]), ETrait(_tr(2), 0, [_sup(0)] if rng.random() < 0.5 else [])]
+    else:
+        traits = [ETrait(_tr(0)), ETrait(_tr(1), 0, [_sup(0)]),
+                  ETrait(_tr(2), 1, [impl_atom(_tr(1), var(1))] + ([_sup(0)] if rng.random() < 0.5 else []))]
+    unary = [t for t in traits if t.nextra == 0]
+    bound = rng.choice(unary)
+    adts = _consts(3) + [EAdt("W", 1, [], [var(0)]), EAdt("B", 1, [impl_atom(bound.name, var(0))], [var(0)])]
+    p = EProg(adts, traits, [], "wf-" + kind)
+    muts = []          # (description, function applied to the finished program)
+
+    def closure_names(tn):
+        return [a[0] for a in _ground_closure(p, [(tn, tuple([adt("S0")] * (1 + p.trait(tn).nextra)))])]
+
+    # ground impls: a closed set
+    wanted = []
+    for c in ("S0", "S1", "S2"):
+        for t in traits:
+            if rng.random() < 0.45:
+                wanted.append((t.name, tuple([adt(c)] + [adt(rng.choice(["S0", "S1"])) for _ in range(t.nextra)])))
+    closed = _ground_closure(p, wanted)
+    for a in closed:
+        p.impls.append(pg.Impl(0, a))
+    for a in closed:
+        if any(a in _ground_closure(p, [b])[1:] for b in closed if b != a):
+            muts.append(("ground-impl %s" % atom_text(("impl",) + a, _ivar),
+                         lambda q, a=a: q.impls.remove(next(i for i in q.impls if i.nvars == 0 and i.head == a))))
+    # structural impls for W: a closed set of unary traits, each `impl<T> Tr for W<T> where T: Tr`
+    if rng.random() < 0.7:
+        k = rng.choice(unary)
+        wset = [tn for tn in closure_names(k.name) if p.trait(tn).nextra == 0]
+        for tn in wset:
+            p.impls.append(pg.Impl(1, (tn, (adt("W", var(0)),)), [(tn, (var(0),))]))
+            if p.trait(tn).wcs:
+                muts.append(("where-clause of W impl of %s" % tn,
+                             lambda q, tn=tn: setattr(next(i for i in q.impls if i.nvars == 1 and i.head == (tn, (adt("W", var(0)),))), "wcs", [])))
+        for tn in wset[1:]:
+            muts.append(("W impl of %s" % tn,
+                         lambda q, tn=tn: q.impls.remove(next(i for i in q.impls if i.nvars == 1 and i.head == (tn, (adt("W", var(0)),))))))
+    # impls for the bounded struct B<T> where T: bound — `T: bound` is an implied bound there
+    bset = [tn for tn in closure_names(bound.name) if p.trait(tn).nextra == 0]
+    if rng.random() < 0.6:
+        for tn in bset:
+            p.impls.append(pg.Impl(1, (tn, (adt("B", var(0)),)), [(tn, (var(0),))] if rng.random() < 0.4 else []))
+        others = [t for t in unary if t.name not in bset and t.wcs]
+        if others:
+            o = rng.choice(others)
+            muts.append(("impl of %s for B<T> (a supertrait is not implemented)" % o.name,
+                         lambda q, o=o: q.impls.append(pg.Impl(1, (o.name, (adt("B", var(0)),)), []))))
+    # a struct with a field of the bounded type
+    if rng.random() < 0.7:
+        stronger = rng.choice([t for t in unary if bound.name in closure_names(t.name)])
+        p.adts.append(EAdt("C", 1, [impl_atom(stronger.name, var(0))], [adt("B", var(0)), var(0)]))
+        muts.append(("where-clause of struct C", lambda q: setattr(q.adt("C"), "wcs", [])))
+    ok_consts = [c for c in ("S0", "S1", "S2") if (bound.name, (adt(c),)) in closed]
+    if ok_consts and rng.random() < 0.4:
+        p.adts.append(EAdt("D", 0, [], [adt("B", adt(rng.choice(ok_consts)))]))
+    bad_consts = [c for c in ("S0", "S1", "S2") if (bound.name, (adt(c),)) not in closed]
+    if bad_consts:
+        muts.append(("struct with an ill-formed field type",
+                     lambda q: q.adts.append(EAdt("E", 0, [], [adt("B", adt(bad_consts[0]))]))))
+    # the circular pattern (finding C21-wf-circular): a where-clause about a bounded type whose own
+    # well-formedness is only implied by that where-clause
+    if rng.random() < 0.25:
+        p.traits.append(ETrait("Q", 1, [impl_atom(bound.name, var(1))]))           # trait Q<P0> where P0: bound
+        p.impls.append(pg.Impl(1, ("Q", (adt("B", var(0)), var(0)))))                # impl<T> Q<T> for B<T>
+        top = rng.choice(unary)
+        p.adts.append(EAdt("V", 1, [], []))
+        for tn in closure_names(top.name):
+            if tn == top.name or p.trait(tn).nextra:
+                continue
+            p.impls.append(pg.Impl(1, (tn, (adt("V", var(0)),)), [(bound.name, (var(0),))]))
+        p.impls.append(pg.Impl(1, (top.name, (adt("V", var(0)),)), [("Q", (adt("B", var(0)), var(0)))]))
+        p.shape += "+circular"
+    missing = None
+    if muts and rng.random() < 0.45:
+        missing, f = rng.choice(muts)
+        f(p)
+    p.order = ([("adt", i) for i in range(len(p.adts))] + [("trait", i) for i in range(len(p.traits))]
+               + [("impl", i) for i in range(len(p.impls))])
+    if rng.random() < 0.5:
+        p = permute(p, rng)
+    return p, {"missing": missing}
